@@ -215,6 +215,18 @@ func (r *Report) Finish(tier string, seed int64, start time.Time, evidenceDir st
 		}
 	}
 	samples = append(samples, extraSamples...)
+	if r.Assumptions == nil {
+		r.Assumptions = []string{}
+	}
+	if r.TrustedBase == nil {
+		r.TrustedBase = []string{}
+	}
+	if r.NotDecided == nil {
+		r.NotDecided = []string{}
+	}
+	if out.KnownLines == nil {
+		out.KnownLines = []string{}
+	}
 	funcs := make([]string, 0, len(r.Funcs))
 	for f := range r.Funcs {
 		funcs = append(funcs, f)
